@@ -453,15 +453,24 @@ def check_tm_step(ctx, rep, f):
         return
     hv = rets[0].value.elts[1]
     hexpr = resolve_alias(f, hv)
-    dnames = [n for n in names_in(hexpr) if n not in (p_head,)]
+    # the direction is the third component unpacked from the transition (or its default)
+    unpack3 = [n for n in walk_no_nested(f.node) if isinstance(n, ast.Assign) and isinstance(n.targets[0], ast.Tuple) and len(n.targets[0].elts) == 3 and isinstance(n.targets[0].elts[2], ast.Name)]
+    dnames = sorted({n.targets[0].elts[2].id for n in unpack3}) or [n for n in names_in(hexpr) if n not in (p_head,)]
     try:
         ok = True
         for h in range(0, 4):
             for d in ('L', 'R'):
-                env = {p_head: h}
+                env = {p_head: h, 'len({})'.format(p_tape): 9}
                 for dn in dnames:
                     env[dn] = d
-                got = abseval.ev(hexpr, env)
+                if isinstance(hexpr, ast.Name) and hexpr.id not in env:
+                    # the new head is computed by statements (if/else): run them on the store {head, direction}
+                    out = abseval.run_block(f.node.body, env, fixed=set(dnames) | {p_head})
+                    got = out.get(hexpr.id, abseval.UNKNOWN)
+                    if got is abseval.UNKNOWN:
+                        raise Unsupported('value of {} not determined by head and direction'.format(hexpr.id))
+                else:
+                    got = abseval.ev(hexpr, env)
                 want = max(h - 1, 0) if d == 'L' else h + 1
                 if got != want:
                     ok = False
